@@ -20,7 +20,7 @@ RULE = ("Hypothesis-generated parameter assignments for each of the 21 primitive
         "either order in a fresh process must each export byte-for-byte as they do alone in a fresh process. Non-trivial = a non-integral value with >15 "
         "significant digits, or a prefix other than UNIT, or a string; distinct by canonical case text.")
 ASSUME = ["a float converts to the Prefixed of its repr() digits (Decimal(repr(x))) or of its exact binary value - either accepted",
-          "ambiguous strings (whitespace-padded numerics, '1_000', 'nan', 'inf') and Decimal-valued external parameters are recorded, not asserted",
+          "ambiguous strings (whitespace-padded numerics, '1_000') and Decimal-valued external parameters are recorded, not asserted",
           "ints outside int64 raising at export is recorded as 'overflow', not asserted",
           "vlsir.primitives names as declared by vlsirtools.primitives"]
 
@@ -127,8 +127,9 @@ def scalar_expect(v):
         if CANON_NUM.match(s):
             return ("num", {Fraction(Decimal(s))}, None)
         try:
-            Decimal(s)
-            return ("amb",)  # python's Decimal accepts it (padding, underscores, nan, inf): not asserted
+            if not Decimal(s).is_finite():
+                return ("lit", s)  # a spelling of infinity / not-a-number has no decimal value: it is one of the "other" strings
+            return ("amb",)  # python's Decimal accepts it (padding, underscores): not asserted
         except Exception:
             pass
         if s.strip() != s:
